@@ -344,6 +344,68 @@ Proof.
   split; [|split; assumption]. intros a Ha. apply I1 in Ha. destruct Ha as [[]|Ha]. exact Ha.
 Qed.
 
+(* the exact form of the JustAttributes law is preserved as well *)
+Lemma NoDup_app_r {A} (l1 l2 : list A) : NoDup (l1 ++ l2) -> NoDup l2.
+Proof. induction l1 as [|a r IH]; simpl; intro ND; [exact ND|]. inversion ND; auto. Qed.
+
+Lemma mja_loop_exact (Hex : just_attrs_exact I) (bs : list C) : Forall (wf I) bs -> forall acc A D,
+  mja_loop I bs acc = (A, D) ->
+  NoDup (map aname acc ++ map aname (all_attrs (flat_map (items I) bs))) ->
+  (D = [] <-> forall it, In it (flat_map (items I) bs) -> iattr it <> None).
+Proof.
+  destruct L as [_ _ _ _ _ Lja].
+  induction bs as [|b r IH]; intros F acc A D E ND.
+  - cbn in E. inversion E; subst. cbn. split; [intros _ it []|reflexivity].
+  - inversion F as [|? ? Wb F']; subst. cbn [mja_loop] in E.
+    pose proof (Lja b Wb) as J. pose proof (Hex b Wb) as X.
+    destruct (b_just_attrs I b) as [l d] eqn:EJ. cbn [snd] in X.
+    destruct J as [J1 [J2 _]].
+    rewrite merge_attrs_spec in E.
+    set (acc' := acc ++ firsts_from (map aname acc) l) in *.
+    destruct (mja_loop I r acc') as [A' D'] eqn:ER. inversion E; subst. clear E.
+    cbn [flat_map] in *. rewrite all_attrs_app, map_app in ND.
+    set (Nb := map aname (all_attrs (items I b))) in *.
+    set (Nr := map aname (all_attrs (flat_map (items I) r))) in *.
+    assert (forall n, In n (map aname l) -> In n Nb) as SL.
+    { intros n Hn. apply in_map_iff in Hn. destruct Hn as [a [Ea Ha]]. subst.
+      apply in_map. apply J1. exact Ha. }
+    assert (NoDup Nb) as NDb by (apply NoDup_app_r in ND; apply NoDup_app_l in ND; exact ND).
+    assert (dups_from (map aname acc) l = []) as DD.
+    { rewrite (dups_from_nodup _ _ J2). apply filter_none. intros a Ha.
+      apply mem_nIn. intro Hin. apply (NoDup_app_disjoint _ _ (aname a) ND Hin).
+      apply in_app_iff. left. apply SL. apply in_map. exact Ha. }
+    rewrite DD. cbn [dup_diags map app].
+    assert (NoDup (map aname acc' ++ Nr)) as ND'.
+    { apply NoDup_app_intro.
+      - unfold acc'. rewrite map_app. apply NoDup_app_intro;
+          [apply NoDup_app_l in ND; exact ND|apply NoDup_firsts_from|].
+        intros n H1 H2. apply names_firsts_from in H2. destruct H2 as [_ H2].
+        apply mem_In in H1. congruence.
+      - apply NoDup_app_r in ND. apply NoDup_app_r in ND. exact ND.
+      - intros n Hn Hr. unfold acc' in Hn. rewrite map_app, in_app_iff in Hn.
+        destruct Hn as [Hn|Hn].
+        + apply (NoDup_app_disjoint _ _ n ND Hn). apply in_app_iff. right. exact Hr.
+        + apply names_firsts_from in Hn. destruct Hn as [Hn _]. apply SL in Hn.
+          apply NoDup_app_r in ND. exact (NoDup_app_disjoint _ _ n ND Hn Hr). }
+    pose proof (IH F' acc' _ _ ER ND') as IH'. specialize (X NDb).
+    split.
+    + intro HD. apply app_eq_nil in HD. destruct HD as [HD1 HD2].
+      intros it Hit. apply in_app_iff in Hit. destruct Hit as [Hit|Hit].
+      * exact (proj1 X HD1 it Hit).
+      * exact (proj1 IH' HD2 it Hit).
+    + intro H.
+      rewrite (proj2 X (fun it Hit => H it (proj2 (in_app_iff _ _ _) (or_introl Hit)))).
+      rewrite (proj2 IH' (fun it Hit => H it (proj2 (in_app_iff _ _ _) (or_intror Hit)))).
+      reflexivity.
+Qed.
+
+Lemma merged_just_attrs_exact : just_attrs_exact I -> just_attrs_exact M.
+Proof.
+  intros Hex mb W ND. cbn [b_just_attrs items merged_impl wf] in *. unfold mjust_attrs.
+  destruct (mja_loop I mb []) as [A D] eqn:E. cbn [snd].
+  exact (mja_loop_exact Hex _ W _ _ _ E ND).
+Qed.
+
 (* merged_preserves_laws *)
 Theorem merged_lawful : Lawful M.
 Proof.
@@ -427,3 +489,6 @@ Lemma mixed_two_step : two_step_equiv mixed_impl.
 Proof. apply lawful_two_step. apply mixed_lawful. Qed.
 Lemma mixed_k_step : k_step_equiv mixed_impl.
 Proof. apply lawful_k_step. apply mixed_lawful. Qed.
+
+Lemma merged_native_just_attrs_exact V : just_attrs_exact (merged_impl (native_impl V)).
+Proof. apply merged_just_attrs_exact; [apply native_lawful|apply native_just_attrs_exact]. Qed.
